@@ -84,17 +84,31 @@ def oracle(case: dict):
         return ("banner", f"an SDict with a FoamFile entry of its own is not written with banner + FoamFile block first: after the banner comes {after_banner[:80]!r}")
     if not gen.typed_eq(gen.plain(dict(s)), before):
         return ("input-modified", "FoamFormatter.to_string modified the SDict passed in")
+    # ONE formatter instance used again after other formatters were created and used in the process (str() of an SDict,
+    # SDict == SDict, a native write all create a NativeFormatter): the text must be what a fresh instance writes
+    ff = dictIO.FoamFormatter()
+    first = ff.to_string(copy.deepcopy(d))
+    _ = str(dictIO.SDict({"k": "two words"}))
+    _ = dictIO.SDict({"a": ""}) == dictIO.SDict({"a": ""})
+    _ = dictIO.NativeFormatter().to_string({"x": "a b"})
+    again = ff.to_string(copy.deepcopy(d))
+    if again != txt or first != txt:
+        bad = "'" in outside_dq(again)
+        return ("single-quote" if bad else "formatter-reuse",
+                f"a FoamFormatter used a second time (after a NativeFormatter was created) writes {again!r}, a fresh one {txt!r}")
     tmp = native.scratch_dir("c10_")
     try:
         f = tmp / "x.foam"
         try:
-            dictIO.DictWriter.write(dictIO.SDict(copy.deepcopy(d)), f, mode="w")
+            dictIO.DictWriter.write(dictIO.SDict(copy.deepcopy(d)), f, mode="w", formatter=ff)      # the used instance
             r2 = gen.plain(dict(dictIO.DictReader.read(f)))
         except Exception as e:  # noqa: BLE001
             return ("raises", f".foam file round trip raised {type(e).__name__}: {e}")
         ftxt = f.read_text()
         if not ftxt.startswith(BANNER):
             return ("banner", "the .foam file does not start with the OpenFOAM banner")
+        if "'" in outside_dq(ftxt.split("*/\n", 1)[-1]):
+            return ("single-quote", f"the .foam file contains a single-quoted string: {ftxt!r}")
         r2 = native.strip_placeholders(r2)
         r2.pop("FoamFile", None)
         if has_us_key(r2):
